@@ -186,7 +186,7 @@ def exh_history(idx):
 
 
 def judge(ctx, hist, c):
-    d = H.compare_history(ctx['real'], hist, budgetA=40000)
+    d = H.compare_history(ctx['real'], hist, budgetA=40000, atom_mode=_atom_mode(hist, c))
     r = {'c': c, 'nt': False, 'key': H.normalise(hist)}
     if d['status'] == 'discard':
         r['discard'] = d['reason']
@@ -252,3 +252,13 @@ def replay(ctx, w):
             s = (s[0], s[1], s[2], [tuple(r) for r in s[3]]) + tuple(s[4:])
         fixed.append(s)
     return judge(ctx, fixed, {})
+
+
+def _atom_mode(hist, c):
+    """where the host program's atom objects come from (same terms in every mode): made at the time of use, made once
+    and held (also across clear()), or made by another engine"""
+    import hashlib
+    k = int(hashlib.md5(repr(hist).encode('utf8', 'backslashreplace')).hexdigest(), 16) % 10
+    mode = 'fresh' if k < 5 else ('held' if k < 8 else 'other')
+    c['atoms_' + mode] = 1
+    return mode
